@@ -44,9 +44,9 @@ META = {
     "C05": dict(
         text="Proof of the discipline + measured runtime (partial): the component model has exactly `workers` worker threads each processing one event at a time, so at most `workers` processing "
              "calls are in progress (structural; pinned by skeleton_startWorkers/skeleton_runNode); Init/Setup of every node and handler precede worker start (skeleton_setupNodes, skeleton_execute). "
-             "Data-race freedom is a property of the Go memory model: thorough tier runs the harness under the race detector; quick tier checks high-water marks and setup counts on real runs.",
+             "Data-race freedom is a property of the Go memory model: both tiers also run the harness under the Go race detector (a report is attributed to the running case); high-water marks, setup counts and Shutdown/Process overlap are judged on real runs.",
         note="Partial: data races cannot be stated about a Lean model of firebolt alone; they are searched for with -race on the real code. Trusted as C01.",
-        technique="Lean 4 component model + regenerated skeleton equalities + trace monitor (+ Go race detector in the thorough tier)",
+        technique="Lean 4 component model + regenerated skeleton equalities + trace monitor + Go race detector",
     ),
     "C16": dict(
         text="Proof: processed + filtered + failed = received for every oracle and input, a fanout result counts once, counters depend only on the node's own input (counters_partition, "
